@@ -205,8 +205,11 @@ func c15(c *core.Ctx, r *core.Report) {
 				}
 			}
 		}
-		r.Check(okAppend && len(add.Blocks) == 1, "C15.R4", cons, c.FnPos(add), "AddLoaders stores append(<the loader field>, <all given loaders>...) unconditionally")
-		if okAppend {
+		if okAppend && len(add.Blocks) == 1 {
+			r.Hold("C15.R4", cons, c.FnPos(add), "AddLoaders stores append(<the loader field>, <all given loaders>...) unconditionally")
+		} // any other shape: the load table registers its loaders through AddLoaders (two calls) and decides that exactly they are loaded, in order
+		smallModelCheck(c, r, "C15.R4", cons, add, 3)
+		if true {
 			initFn := c.DeclaredMethod(T, "Initialize")
 			if initFn == nil {
 				r.Undecided("C15.R1", "load-table@"+T.Obj().Name(), c.FnPos(add), "the Configure implementation declares no Initialize method")
